@@ -67,6 +67,36 @@ func genBV2Corpus(r *Rng, n int, w *bufio.Writer) {
 			Ins:     []bvIn{{Conf: true, Asset: 0, Value: 1000, Iss: 1, IssValue: 70, IssToken: 0, IssBlinded: false}},
 			Outs:    []bvOut{{Asset: 0, Value: 900, Blind: true}, {Asset: 100, Value: 70, Blind: true}, {Asset: 0, Value: 100, Fee: true}},
 			Parties: []bvParty{{Ctor: 0, Own: []uint32{0}, Outs: []uint32{0, 1}}}},
+		// guard: a party asks to blind an output whose blinder index belongs to the other party
+		&bvShape{Seed: 12,
+			Ins:     []bvIn{{Conf: false, Asset: 0, Value: 1000}, {Conf: false, Asset: 0, Value: 50}},
+			Outs:    []bvOut{{Asset: 0, Value: 900, Blind: true}, {Asset: 0, Value: 50, Blind: true, BlinderIdx: 1}, {Asset: 0, Value: 100, Fee: true}},
+			Parties: []bvParty{{Ctor: 0, Own: []uint32{0}, Outs: []uint32{0, 1}}, {Ctor: 0, Own: []uint32{1}, Outs: []uint32{1}}}},
+		// guard: output index out of range
+		&bvShape{Seed: 13,
+			Ins:     []bvIn{{Conf: true, Asset: 0, Value: 1000}},
+			Outs:    []bvOut{{Asset: 0, Value: 900, Blind: true}, {Asset: 0, Value: 100, Fee: true}},
+			Parties: []bvParty{{Ctor: 0, Own: []uint32{0}, Outs: []uint32{0, 7}}}},
+		// guard: an output without blinding key (the fee) is requested
+		&bvShape{Seed: 14,
+			Ins:     []bvIn{{Conf: true, Asset: 0, Value: 1000}},
+			Outs:    []bvOut{{Asset: 0, Value: 900, Blind: true}, {Asset: 0, Value: 100, Fee: true}},
+			Parties: []bvParty{{Ctor: 0, Own: []uint32{0}, Outs: []uint32{0, 1}}}},
+		// a party with nothing to blind (outBlindingArgs[len-1] on an empty slice)
+		&bvShape{Seed: 15,
+			Ins:     []bvIn{{Conf: true, Asset: 0, Value: 1000}, {Conf: false, Asset: 0, Value: 50}},
+			Outs:    []bvOut{{Asset: 0, Value: 950, Blind: true, BlinderIdx: 1}, {Asset: 0, Value: 100, Fee: true}},
+			Parties: []bvParty{{Ctor: 0, Own: []uint32{0}, Outs: []uint32{}}, {Ctor: 0, Own: []uint32{1}, Outs: []uint32{0}}}},
+		// arguments handed over in descending index order: the last output is the one with the highest index
+		&bvShape{Seed: 16,
+			Ins:     []bvIn{{Conf: true, Asset: 0, Value: 1000}},
+			Outs:    []bvOut{{Asset: 0, Value: 300, Blind: true}, {Asset: 0, Value: 300, Blind: true}, {Asset: 0, Value: 300, Blind: true}, {Asset: 0, Value: 100, Fee: true}},
+			Parties: []bvParty{{Ctor: 0, Own: []uint32{0}, Outs: []uint32{2, 0, 1}}}},
+		// owned inputs listed in descending order, keys constructor
+		&bvShape{Seed: 17,
+			Ins:     []bvIn{{Conf: true, Asset: 0, Value: 1000}, {Conf: true, Asset: 1, Value: 7}},
+			Outs:    []bvOut{{Asset: 1, Value: 7, Blind: true, BlinderIdx: 1}, {Asset: 0, Value: 900, Blind: true}, {Asset: 0, Value: 100, Fee: true}},
+			Parties: []bvParty{{Ctor: 1, Own: []uint32{1, 0}, Outs: []uint32{1, 0}}}},
 	}
 	bvGenParallel(len(shapes), func(i int) string { return bvV2CaseLine(shapes[i]) }, w)
 }
